@@ -10,6 +10,7 @@ import HealSparse.Model.ApiRes
 import HealSparse.Model.Moc
 import HealSparse.Model.SubMap
 import HealSparse.Model.ApiFiles
+import HealSparse.Model.ApiHealpix
 import HealSparse.Model.Text
 namespace HS
 
@@ -18,6 +19,7 @@ structure World where
   packed : PackedWorld := {}
   mocs : List (String × List Nat) := []
   files : List (String × FileObj) := []
+  hpfiles : List (String × HpFile) := []
   metas : List (String × List (String × String)) := []     -- user metadata per map name
 
 def World.raw? (w : World) (n : String) : Option MapObj := (w.pool.find? (·.1 == n)).map (·.2)
@@ -381,6 +383,66 @@ def stepArgs (w : World) (op : String) (a : Args) : World × String :=
       match apiCat fs (a.nat? "covord") (a.flag "check") (a.flag "or") with
       | .ok fo => ({ w with files := (a.getD "f" "f", fo) :: w.files.filter (·.1 != a.getD "f" "f") }, "ok")
       | .error e => (w, errLine e)
+  | "fromhp" =>
+    match (a.get? "dtype").bind parseDT, a.nat? "covord", a.nat? "spord", optVal a "sentinel",
+          parseVals (a.getD "vals" "_") with
+    | some dt, some co, some so, some sent, some vals =>
+      let nest? : Option (List Val) :=
+        if a.getD "nest" "1" == "1" then some vals
+        else (parseNats (a.getD "r2n" "_")).map fun t =>
+          (reorderRingToNest (fun i => rd t.toArray i 0) vals.toArray (.num 0 0)).toList
+      (match nest? with
+       | none => (w, "bad-op:r2n")
+       | some nest =>
+         match apiFromHealpix co so dt sent nest (a.getD "senttype" (if dt.isInt then "int" else "flt") == "int") with
+         | .ok m => (w.put (a.getD "r" "tmp") m, "ok")
+         | .error e => (w, errLine e))
+    | _, _, _, _, _ => (w, "bad-op:fromhp")
+  | "genhp" => withMap w a fun m =>
+    let perm? : Option (Option (Array Nat × Array Nat)) :=
+      if a.getD "nest" "1" == "1" then some none
+      else match parseNats (a.getD "n2r" "_") with
+        | some n2r =>
+          let n2rA := n2r.toArray
+          let r2nA := (List.range n2r.length).foldl (fun (acc : Array Nat) p => acc.setIfInBounds (rd n2rA p 0) p)
+            (Array.replicate n2r.length 0)
+          some (some (n2rA, r2nA))
+        | none => none
+    match perm? with
+    | none => (w, "bad-op:n2r")
+    | some perm =>
+      match apiGenerateHealpix m (a.nat? "ord") (a.getD "red" "mean") (a.nat? "key") perm with
+      | .ok l => (w, showVals l)
+      | .error e => (w, errLine e)
+  | "interp" => withMap w a fun m =>
+    let grp (s : String) : List String := s.splitOn ":"
+    let nb? := (splitList (a.getD "nb" "_")).mapM fun g => (grp g).mapM String.toNat?
+    let w? := (splitList (a.getD "w" "_")).mapM fun g => (grp g).mapM parseDy
+    match nb?, w? with
+    | some nb, some ws =>
+      (match apiInterp m (List.zipWith List.zip nb ws) (a.flag "partial") with
+       | .ok l => (w, showVals l)
+       | .error e => (w, errLine e))
+    | _, _ => (w, "bad-op:interp")
+  | "hpxwrite" => withMap w a fun m =>
+    match apiWriteHealpix m with
+    | .ok f => ({ w with hpfiles := (a.getD "f" "f", f) :: w.hpfiles.filter (·.1 != a.getD "f" "f") }, "ok")
+    | .error e => (w, errLine e)
+  | "hpximplicit" =>
+    match (a.get? "dtype").bind parseDT, a.nat? "spord", parseVals (a.getD "vals" "_") with
+    | some dt, some so, some vals =>
+      ({ w with hpfiles := (a.getD "f" "f", .implicit so dt (a.getD "ordering" "NESTED" == "RING") vals) ::
+                  w.hpfiles.filter (·.1 != a.getD "f" "f") }, "ok")
+    | _, _, _ => (w, "bad-op:hpximplicit")
+  | "hpxread" =>
+    match (w.hpfiles.find? (·.1 == a.getD "f" "f")).map (·.2), a.nat? "covord" with
+    | some f, some co =>
+      let r2n := (a.get? "r2n").bind parseNats |>.map List.toArray
+      (match apiReadHealpix f co r2n with
+       | .ok m => (w.put (a.getD "r" "tmp") { m with cache := none }, "ok")
+       | .error e => (w, errLine e))
+    | none, _ => (w, "bad-op:no-such-map")
+    | _, _ => (w, "bad-op:hpxread")
   | "vals" => withMap w a fun m => (w, showVals ((List.range m.npix).map m.abs))
   | "get" => withMap w a fun m =>
     let pix? : Option (List Nat) :=
